@@ -386,6 +386,26 @@ Lemma kmeans_J_bounds d k X labels maxiter delta j : (0 < k)%nat -> valid k X la
 Proof. intros Hk Hv E. pose proof (kloop_J_bounds d k X (delta * vdata d X) Hk maxiter labels None Hv I) as H.
   unfold kmeans in E. rewrite E in H. exact H. Qed.
 
+Lemma api_k_range k n : (0 < n)%nat -> (1 <= api_k k n <= Z.of_nat n)%Z.
+Proof. intros H. unfold api_k. destruct (k <? 1)%Z eqn:E1; [apply Z.ltb_lt in E1|apply Z.ltb_ge in E1];
+  match goal with |- context [(Z.of_nat n <? ?a)%Z] => destruct (Z.of_nat n <? a)%Z eqn:E2 end;
+  try apply Z.ltb_lt in E2; try apply Z.ltb_ge in E2; lia. Qed.
+
+Lemma kmeans_api_means d k X labels maxiter delta : X <> [] ->
+  (api_labels_ok (api_k k (length X)) labels = true \/ (1 <= maxiter)%Z) ->
+  let k2 := Z.to_nat (api_k k (length X)) in
+  let r := kmeans_api st d k X labels maxiter delta in
+  (1 <= k2 <= length X)%nat /\ km_centers r = mstep d X (km_labels r) k2 /\ valid k2 X (km_labels r).
+Proof. intros Hne Hm k2 r.
+  assert (Hn : (0 < length X)%nat) by (destruct X; [congruence|simpl; lia]).
+  pose proof (api_k_range k (length X) Hn) as Hk.
+  assert (Hk2 : (1 <= k2 <= length X)%nat) by (unfold k2; lia).
+  split; [exact Hk2|]. unfold r, kmeans_api. fold k2. split; [apply kmeans_means|].
+  apply kmeans_labels_valid; [lia|]. unfold api_maxiter.
+  destruct (api_labels_ok (api_k k (length X)) labels).
+  - destruct (0 <? maxiter)%Z eqn:E; [apply Z.ltb_lt in E|]; lia.
+  - destruct Hm as [Hm|Hm]; [discriminate|lia]. Qed.
+
 Lemma voronoi_spec d X cs : cs <> [] -> forall i, (i < length X)%nat ->
   let x := nth i X [] in let z := nth i (voronoi st d X cs) 0%nat in
   (z < length cs)%nat /\
